@@ -91,9 +91,18 @@ class Owner:
                 kid = "\u043a\u043b\u044e\u0447-%d" % self.counter
             elif x < 0.26 and all(o.kid != "" for o in self.keys) and "" not in self.retired_kids:
                 kid = ""
+            elif x < 0.36:
+                # two spellings of "the same" text are two different kids (octet-wise comparison): twins land in one set
+                kid = ("caf\u00e9-%d" if self.counter % 2 else "cafe\u0301-%d") % (self.counter // 2)
             else:
                 kid = "key-%d" % self.counter
-        return RKey(k.kty, k.crv, k.pub, k.priv, None, {"kid": kid}), mode
+        params = {"kid": kid}
+        if self.rng.chance(0.3):
+            # the key says what it is for; selection by kid (and the single-key rule for tokens without kid) does not depend on it
+            both = kind_of(k) in JWS_ALG and kind_of(k) in JWE_ALG
+            if not both:      # (keys that can serve both purposes stay undeclared: the world uses them for both)
+                params["use"] = "sig" if kind_of(k) in JWS_ALG else "enc"
+        return RKey(k.kty, k.crv, k.pub, k.priv, None, params), mode
 
     def rebuild(self, in_place=False):
         """new KeySet object, or (in_place) the long-lived object's key list is edited: remove / append / replace"""
@@ -249,13 +258,13 @@ def _world(rng, tier, index, res, tr, ch):
         return jset
 
     def mint_jws(liveness=False):
-        cands = [k for k in owner.keys if kind_of(k) in JWS_ALG]
+        cands = [k for k in owner.keys if kind_of(k) in JWS_ALG and k.params.get("use") != "enc"]
         if not cands:
             return
         key = erng.pick(cands)
         alg = erng.pick(JWS_ALG[kind_of(key)])
         same_kty = [k for k in owner.keys if k.kty == key.kty]
-        mixed = any(kind_of(k) != kind_of(key) for k in same_kty)
+        mixed = any(kind_of(k) != kind_of(key) or k.params.get("use") == "enc" for k in same_kty)
         with_kid = liveness or erng.chance(0.6)
         form = erng.pick(["compact", "flat-protected", "flat-unprotected", "general", "c7797", "f7797"])
         payload = ("p-%d-%d" % (index, sim.events)).encode()
@@ -367,7 +376,7 @@ def _world(rng, tier, index, res, tr, ch):
 
     def mint_nokid():
         """a conformant foreign producer omits the kid: only a single-key set may accept"""
-        cands = [k for k in owner.keys if kind_of(k) in JWS_ALG]
+        cands = [k for k in owner.keys if kind_of(k) in JWS_ALG and k.params.get("use") != "enc"]
         if not cands:
             return
         key = erng.pick(cands)
@@ -377,7 +386,7 @@ def _world(rng, tier, index, res, tr, ch):
         res.fired("foreign-token-without-kid")
         peer = erng.pick(peers)
         sim.after(erng.pick([0.01, 5, 600]), lambda: deliver_jws(peer, tok, key, payload, None, False), "deliver-jws")
-        kj = [k for k in owner.keys if kind_of(k) in JWE_ALG]
+        kj = [k for k in owner.keys if kind_of(k) in JWE_ALG and k.params.get("use") != "sig"]
         if kj:
             k2 = erng.pick(kj)
             a2 = erng.pick(JWE_ALG[kind_of(k2)])
@@ -391,7 +400,7 @@ def _world(rng, tier, index, res, tr, ch):
         peer = erng.pick(peers)
         if peer.jset is None:
             return
-        cands = [k for k in peer.rkeys if kind_of(k) in JWE_ALG]
+        cands = [k for k in peer.rkeys if kind_of(k) in JWE_ALG and k.params.get("use") != "sig"]
         kinds = sorted({kind_of(k) for k in cands})
         if len(kinds) < 1 or len(cands) < 2:
             return
@@ -408,7 +417,8 @@ def _world(rng, tier, index, res, tr, ch):
             tok = jwe.encrypt_json(o, peer.jset, algorithms=ALLJWE)
         except Exception as e:
             ch.force = None
-            same_kty_mixed = any(len({kind_of(k) for k in peer.rkeys if k.kty in (["RSA"] if a.startswith("RSA") else ["EC", "OKP"])}) > 1 for a in algs)
+            same_kty_mixed = any(len({kind_of(k) for k in peer.rkeys if k.kty in (["RSA"] if a.startswith("RSA") else ["EC", "OKP"])}) > 1 for a in algs) or \
+                any(k.params.get("use") == "sig" for k in peer.rkeys)
             if same_kty_mixed:
                 res.probe("dontcare:random-pick-unusable-key")
                 return
@@ -562,14 +572,14 @@ def _world(rng, tier, index, res, tr, ch):
         peer = erng.pick(peers)
         if peer.jset is None:
             return
-        cands = [k for k in peer.rkeys if kind_of(k) in JWE_ALG]
+        cands = [k for k in peer.rkeys if kind_of(k) in JWE_ALG and k.params.get("use") != "sig"]
         if not cands:
             return
         key = erng.pick(cands)
         alg = erng.pick(JWE_ALG[kind_of(key)])
         ktys = ["RSA"] if alg.startswith("RSA") else ["EC", "OKP"]
         pool = [k for k in peer.rkeys if k.kty in ktys]
-        mixed = any(kind_of(k) != kind_of(key) for k in pool)
+        mixed = any(kind_of(k) != kind_of(key) or k.params.get("use") == "sig" for k in pool)
         with_kid = liveness or erng.chance(0.6)
         form = erng.pick(["compact", "flattened", "general"])
         pt = ("s-%d-%d" % (index, sim.events)).encode()
